@@ -488,6 +488,8 @@ def run_stats(rng, obs):
     x = gen_vec(rng, n)
     if len(set(x)) < 2: x[0] += 1.25
     if which == 'normalized' and abs(sum(x)) < 0.5: x[0] += 3.0
+    if which in ('with_variance', 'with_std', 'with_spread') and rng.random() < 0.15:
+        off = rng.choice([1e5, -3e5]); x = [v + off for v in x]          # entries sharing a large common offset: the spread statistics do not depend on it
     target = rng.choice([1.0, 5.0, 0.5, 12.0])
     if which == 'with_mean': target = rng.choice([0.0, -3.0, 5.0])
     mean = lambda v: sum(v) / len(v)
